@@ -279,6 +279,9 @@ def plan (st, quick):
     dp1 = list(plens) if full else sorted(set(dp) | set(st["plens"]))
   dp2 = dp[:2] if quick else dp[:3]
   dp3 = [] if quick else dp[:2]
+  if st.get("zero_csum"):
+    # payload -1: two bytes chosen by the reference so that the UDP checksum computes to 0x0000
+    plens = list(plens) + [-1]; dp1 = list(dp1) + [-1]
   return plens, dp1, dp2, dp3
 
 
@@ -349,13 +352,14 @@ def _run_part (rep, name, part):
 _worker.quick = True
 
 
-CSUM_PATTERNS = ["zeros", "ones", "ramp", "carry", "high-last"]
+CSUM_PATTERNS = ["zeros", "ones", "ramp", "carry", "fold-twice", "high-last"]
 
 def csum_buffer (n, pat):
   if pat == "zeros": return b"\x00" * n
   if pat == "ones": return b"\xff" * n
   if pat == "ramp": return K.pattern(n)
   if pat == "carry": return (b"\xff\xfe\x00\x02" * (n // 4 + 1))[:n]
+  if pat == "fold-twice": return (b"\xff\xff\xff\xff\x00\x01" + b"\x00" * n)[:n]      # 0x1ffff: the folded sum carries again
   return b"\x00" * (n - 1) + b"\x80" if n else b""
 
 
@@ -445,7 +449,7 @@ def run (cfg):
               "fingerprint base vector x every payload length of the stack's range (0..1500 for udp, tcp, icmp-echo over IPv4; "
               "{0,1,2,3,17,18,1499,1500} otherwise%s), every single deviation of a field to one of its boundary values / option-list "
               "shapes (%d deviations) x payload %s, every pair of deviations in different fields x payload %s%s; plus "
-              "packet_utils.checksum on bare buffers of every length 0..%d x 5 byte patterns x skip_word {None,0,1,last}. "
+              "packet_utils.checksum on bare buffers of every length 0..%d x 6 byte patterns x skip_word {None,0,1,last}. "
               "Each case: assemble with the POX classes, pack, parse, compare chain/fields/payload, re-pack, verify length and "
               "checksum fields with refs/rfc1071 over raw offsets. distinct = distinct (violated clauses, emitted frame, parsed chain)"
               % (len(names), "" if quick else "; thorough: 0..1500 on every stack whose range reaches 1500", nd,
@@ -462,6 +466,15 @@ def run (cfg):
   return rep
 
 
+def explains (known_key, key):
+  """A listed key explains a violation when equal, or - if it contains '*' - when it matches with
+  '*' standing for any run of characters (every other character is literal)."""
+  if known_key == key: return True
+  if "*" not in known_key: return False
+  import re
+  return re.fullmatch(".*".join(re.escape(x) for x in known_key.split("*")), key) is not None
+
+
 def replay (cfg, data):
   P = K.pox_namespace()
   if data.get("kind") == "csum":
@@ -470,7 +483,8 @@ def replay (cfg, data):
   st = K.STACKS[data["stack"]]
   devs = tuple(tuple(d) for d in data["devs"])
   c = check_case(P, st, devs, data["plen"])
-  lines = ["stack %s, payload %d bytes, deviations from the base vector:" % (st["name"], data["plen"])]
+  lines = ["stack %s, payload %s, deviations from the base vector:"
+           % (st["name"], "%d bytes" % data["plen"] if data["plen"] >= 0 else "2 bytes making the UDP checksum compute to 0")]
   vs = K.values(st, devs)
   for li, f, ai in devs:
     lines.append("  layer %d (%s) %s = %s" % (li, st["layers"][li][0], f, short(vs[li][f], 80)))
